@@ -219,8 +219,5 @@ def r19_3(ctx):
 
 
 def run(ctx):
-    for r in (r19_1, r19_2, r19_3):
-        try:
-            r(ctx)
-        except shared.AnchorMissing:
-            pass
+    import engine
+    engine.run_rules(ctx, [r19_1, r19_2, r19_3])
